@@ -1075,7 +1075,7 @@ def known_finding_lines(findings, ev):
 
 
 MANIFEST = {
-    "level_text": ("Machine-checked proofs (Lean 4, 69 theorems) over executable models that mirror the anchored code: reverse_mem's index loop is "
+    "level_text": ("Machine-checked proofs (Lean 4, 74 theorems) over executable models that mirror the anchored code: reverse_mem's index loop is "
                    "list reversal for every length; swap∘swap = id, convert round trips, io::write emits the base-256 digits most/least "
                    "significant first and io::read∘io::write = id for every width, signedness, byte order, machine order and value, a short input "
                    "never yields a value; extract_from_string(output_to_string(v)) = v for every integer of 1..8 bytes and every accepted text is "
